@@ -432,7 +432,7 @@ Theorem next_epoch_total C o gen p x s R NR :
   (exists r, next_epoch o gen p x s = Ok r) \/ next_epoch o gen p x s = OutOfTape.
 Proof.
   intros HA HP Fr Sv Hal Hpos Hsmall Hc Hq [RO Hh] Hrec Htape.
-  destruct (prepare_forward o p s HP Fr Sv Hal) as [Et|(p1 & sorted & best & s1 & Ep & Ne1)].
+  destruct (prepare_forward o p s HP Fr Hsmall Sv Hal) as [Et|(p1 & sorted & best & s1 & Ep & Ne1)].
   { right. unfold next_epoch. now apply bindM_tape_eq. }
   pose proof (prepare_ok _ _ _ _ _ _ _ Ep (Part_Wf _ HP) (part_detached _ HP) (part_orgs_nodup _ HP))
     as [A1 A2 A3 A4 A5 A6 A7 A8 A9].
